@@ -785,6 +785,55 @@ def sysPropSetAtomsScaled (i : Nat) (ix : Option Index) (src : Nat) : M Unit := 
   viewSet src "pos" (.lit v')
   setItem y.atoms (ix.getD (.slice none none none)) src
 
+/-- `box.position_cartesian_to_relative(value)` on a value read from the atoms:
+    `np.inner(np.asarray(value, dtype=float) - origin, reciprocal_vects)`, row by row. -/
+def cartToRelVal (box : Box Rat) (v : Val) : Except Err Val :=
+  match v.shape.getLast? with
+  | none => .error .index                 -- 0-d input: IndexError on shape[-1]
+  | some d =>
+    if d ≠ 3 then .error .value else
+    if M3.det box.vects = 0 then .error .unmodelled else     -- LinAlgError (never a generated box)
+    match v.data.mapM (castCell .flt) with
+    | none => .error .unmodelled
+    | some cells =>
+      let nums := cells.map (fun c => match c with | .flt r => r | _ => 0)
+      let rows := (List.range (nums.length / 3)).map (fun j =>
+        let p := box.cartToRel ⟨nums.getD (3 * j) 0, nums.getD (3 * j + 1) 0, nums.getD (3 * j + 2) 0⟩
+        [Cell.flt p.x, Cell.flt p.y, Cell.flt p.z])
+      .ok ⟨.flt, v.shape, rows.flatten⟩
+
+/-- `atoms_prop(key, index, scale=True)` without value: a pure read,
+    `box.position_cartesian_to_relative(self.atoms.view[key][index])`. -/
+def sysPropGetScaled (i : Nat) (key : String) (ix : Option Index) : M Val := do
+  let s ← getS
+  let y := s.sys i
+  let v ← propGet y.atoms key ix
+  liftE (cartToRelVal y.box v)
+
+/-- `atoms_prop(index=…, scale=True)` without key and value: `newatoms = deepcopy(self.atoms[index])`
+    (`deepcopy(self.atoms)` without index), then `newatoms.pos = box.position_cartesian_to_relative(newatoms.pos)`
+    — an assignment to an EXISTING key of the new object, i.e. a write through `newatoms.view['pos'][:]`. -/
+def sysPropGetAtomsScaled (i : Nat) (ix : Option Index) : M Nat := do
+  let s ← getS
+  let y := s.sys i
+  let t ← (match ix with
+    | none => deepcopy y.atoms
+    | some ix => propGetAtoms y.atoms ix : M Nat)
+  let s1 ← getS
+  let pa ← keyErr ((s1.obj t).find "pos")
+  let v' ← liftE (cartToRelVal y.box (arrVal s1 pa))
+  viewSet t "pos" (.lit v')
+  pure t
+
+/-- `copy.deepcopy(system)`: `Atoms.__deepcopy__` for the atoms; box, pbc and the STORED symbols / masses tuples
+    are copied as they are (no getter runs: a stale tuple stays stale in the copy). -/
+def sysDeepcopy (i : Nat) : M (Nat × Nat) := do
+  let s ← getS
+  let y := s.sys i
+  let a ← deepcopy y.atoms
+  let j ← pushSys { y with atoms := a }
+  pure (a, j)
+
 /-- `_AtomsIndexer.__getitem__`: returns (new atoms id, new system id). -/
 def ixGet (i : Nat) (ix : Index) : M (Nat × Nat) := do
   let s ← getS
@@ -850,6 +899,9 @@ inductive Op where
   | composition (i : Nat)
   | sysPropGet (i : Nat) (key : String) (ix : Option Index)
   | sysPropGetAtoms (i : Nat) (ix : Index)
+  | sysPropGetScaled (i : Nat) (key : String) (ix : Option Index)
+  | sysPropGetAtomsScaled (i : Nat) (ix : Option Index)
+  | sysDeepcopy (i : Nat)
   | sysPropSet (i : Nat) (key : String) (ix : Option Index) (v : Val) (scale : Bool)
   | sysPropSetAtoms (i : Nat) (ix : Option Index) (src : Nat) (scale : Bool)
   | sysExtend (i : Nat) (value : Int ⊕ Nat) (scale : Bool) (symbols : Option (List (Option String)))
@@ -888,7 +940,8 @@ def Op.idsOk (s : State) : Op → Bool
     decide (o < s.objs.length) && decide (src < s.objs.length)
   | .symbolsGet i | .symbolsSet i _ | .massesGet i | .massesSet i _ | .pbcSet i _ | .sysNatypes i
   | .sysAtypes i | .composition i
-  | .sysPropGet i .. | .sysPropGetAtoms i .. | .sysPropSet i .. | .ixGet i .. =>
+  | .sysPropGet i .. | .sysPropGetAtoms i .. | .sysPropSet i .. | .ixGet i ..
+  | .sysPropGetScaled i .. | .sysPropGetAtomsScaled i .. | .sysDeepcopy i =>
     decide (i < s.syss.length)
   | .sysPropSetAtoms i _ src _ => decide (i < s.syss.length) && decide (src < s.objs.length)
   | .sysExtend i v _ _ => decide (i < s.syss.length) && (match v with
@@ -927,6 +980,9 @@ def run (offsetDonor : Bool) : Op → M Out
   | .composition i => do let c ← composition i; pure (.comp c)
   | .sysPropGet i k ix => do let s ← getS; let v ← propGet (s.sys i).atoms k ix; pure (.val v)
   | .sysPropGetAtoms i ix => do let s ← getS; let n ← propGetAtoms (s.sys i).atoms ix; pure (.obj n)
+  | .sysPropGetScaled i k ix => do let v ← sysPropGetScaled i k ix; pure (.val v)
+  | .sysPropGetAtomsScaled i ix => do let n ← sysPropGetAtomsScaled i ix; pure (.obj n)
+  | .sysDeepcopy i => do let r ← sysDeepcopy i; pure (.objSys r.1 r.2)
   | .sysPropSet i k ix v scale => do
     let s ← getS
     (if scale then sysPropSetScaled i k ix v else propSet (s.sys i).atoms k ix v : M Unit)
